@@ -416,8 +416,18 @@ func (g *Generator) AdjustMounts(mounts []*nri.Mount) error {
 	}
 
 	propagation := ""
+	set := map[string]struct{}{}
+	for _, m := range mounts {
+		if destination, marked := m.IsMarkedForRemoval(); !marked {
+			set[destination] = struct{}{}
+		}
+	}
 	for _, m := range mounts {
 		if destination, marked := m.IsMarkedForRemoval(); marked {
+			if _, ok := set[destination]; ok {
+				// a set wins over a removal of the same mount whatever the list order
+				continue
+			}
 			g.RemoveMount(destination)
 			continue
 		}
